@@ -635,7 +635,7 @@ pub fn run(ctx: &Ctx) -> i32 {
         };
     }
     let tier = ctx.tier;
-    let nh: u32 = tier.pick(60_000, 4_000_000);
+    let nh: u32 = tier.pick(300_000, 8_000_000);
     let nshards = 64usize;
     let stats = par_shards(ctx, nshards, |shard| {
         let w = Worker::new(ctx);
